@@ -107,17 +107,17 @@ static void diff_line(const std::string &a, const std::string &b, std::string &l
 static void exec_on(World &w, const Op &o, int ri) {
   Run &r = *w.run;
   Dump B = w.r[ri].last;
-  bool handled = ops_core(w, o) || ops_aux(w, o);
+  bool handled = ops_core(w, o) || ops_aux(w, o) || ops_diff(w, o);
   if (!handled) { r.ev("unknown op %s", o.kind.c_str()); return; }
   if (!w.r[ri].live()) return;
   bool aux = o.kind.rfind("dist_", 0) == 0 || o.kind.rfind("mem_", 0) == 0 || o.kind.rfind("kind_", 0) == 0;
   observe(w, ri, w.r[ri].adopted ? "C19" : "C02", aux && (o.u("obs") & 1));
-  // a Group merged with another Group may take over its place and storage under a new gp_index (hwloc_replace_linked_object):
-  // structures that referenced the old Group now reference its replacement; the reference list follows that renaming
-  if (o.kind == "group" || o.kind == "dist_add") {
-    std::map<hwloc_obj_t, uint64_t> bp; for (auto &kv : B.objs) if (kv.second.type == HWLOC_OBJ_GROUP) bp[kv.second.ptr] = kv.first;
-    for (auto &kv : w.r[ri].last.objs) { if (kv.second.type != HWLOC_OBJ_GROUP) continue; auto it = bp.find(kv.second.ptr); if (it == bp.end() || it->second == kv.first || w.r[ri].last.find(it->second)) continue;
-      for (auto &dm : w.r[ri].user_dists) for (auto &g : dm.objs) if (g == it->second) { g = kv.first; r.count("probe.group_replaced_renames_distance_object"); } }
+  // a Group merged with another Group may be replaced in place under a new gp_index (hwloc_replace_linked_object). A distances
+  // structure that referenced the old Group reports the replacement until its next refresh and drops it afterwards: both answers
+  // reference objects of the topology, the statement does not say which one is right, so the reference list stops following
+  // this replica's distances from here on
+  if ((o.kind == "group" || o.kind == "dist_add") && w.r[ri].dists_tracked) {
+    for (auto &dm : w.r[ri].user_dists) for (size_t x = 0; x < dm.objs.size(); x++) if (dm.types[x] == HWLOC_OBJ_GROUP && B.find(dm.objs[x]) && !w.r[ri].last.find(dm.objs[x])) { w.r[ri].dists_tracked = false; r.count("probe.group_replaced_under_distances_untracked"); }
   }
   // memattr targets and object initiators are identified by gp_index: a Group that was replaced is a removed object for them
   if (o.kind == "group" || o.kind == "dist_add") {
@@ -151,14 +151,17 @@ struct TopoMachine : Machine {
     std::vector<std::string> corpus = corpus_xml();
     int sk = (int)srcg.below(10);
     if (prop == "C01") sk = (int)srcg.below(6) + 4;
+    bool dgx = prop == "C13" && srcg.chance(1, 5);   // NVSwitch ports for the transforms: corpus file with I/O kept
     if (sk < 7 || corpus.empty()) p.seth("src", "synthetic " + gen_synthetic(srcg));
     else p.seth("src", std::string(sk == 7 ? "xmlbuf " : "xml ") + corpus[srcg.below(corpus.size())]);
+    if (dgx) p.seth("src", srcg.chance(1, 2) ? "xml nvidiaDGX2.xml" : "xml power8gpudistances.xml");
     // configuration: filters and flags
     std::string filters(HWLOC_OBJ_TYPE_MAX, '-'); int fmode = (int)cfg.below(5);
     for (int ty = 0; ty < HWLOC_OBJ_TYPE_MAX; ty++) {
       if (fmode == 1) filters[ty] = '0'; else if (fmode == 2) filters[ty] = '2'; else if (fmode == 3) filters[ty] = (char)('0' + cfg.below(4)); else if (fmode == 4 && cfg.chance(1, 4)) filters[ty] = (char)('0' + cfg.below(4));
     }
-    if (prop != "C01" && cfg.chance(3, 4)) filters[HWLOC_OBJ_MISC] = '0';   // histories want Misc objects
+    if (prop != "C01" && cfg.chance(3, 4)) filters[HWLOC_OBJ_MISC] = '0';
+    if (dgx) { filters[HWLOC_OBJ_PCI_DEVICE] = '0'; filters[HWLOC_OBJ_OS_DEVICE] = '0'; filters[HWLOC_OBJ_BRIDGE] = cfg.chance(1, 2) ? '0' : '3'; }   // histories want Misc objects
     unsigned long flags = 0;
     if (cfg.chance(1, 3)) flags |= HWLOC_TOPOLOGY_FLAG_INCLUDE_DISALLOWED;
     if (cfg.chance(1, 6)) flags |= HWLOC_TOPOLOGY_FLAG_IMPORT_SUPPORT;
@@ -178,7 +181,10 @@ struct TopoMachine : Machine {
     al.push_back({"dist_add", 2}); al.push_back({"dist_get", 1}); al.push_back({"dist_remove", 1}); al.push_back({"dist_transform", 0});
     al.push_back({"mem_register", 1}); al.push_back({"mem_set", 2}); al.push_back({"mem_query", 1}); al.push_back({"mem_local", 1});
     al.push_back({"kind_register", 2}); al.push_back({"kind_query", 1});
-    if (prop == "C13") { al[13].w = 10; al[14].w = 8; al[15].w = 4; al[16].w = 5; al[0].w = 5; al[10].w = 2; al[11].w = 2; al[3].w = 0; }
+    al.push_back({"diff", 0});   // 23
+    if (prop == "C16") { al[23].w = 14; al[0].w = 3; al[10].w = 1; al[11].w = 1; al[13].w = 2; al[18].w = 1; al[21].w = 1; }
+    if (prop == "C02") al[23].w = 1;
+    if (prop == "C13") { al[13].w = 10; al[14].w = 8; al[15].w = 4; al[16].w = 8; al[0].w = 5; al[10].w = 2; al[11].w = 2; al[3].w = 0; al[7].w = 3; }
     if (prop == "C14") { al[17].w = 4; al[18].w = 12; al[19].w = 8; al[20].w = 5; al[0].w = 5; al[10].w = 2; al[11].w = 2; al[13].w = 0; al[21].w = 0; }
     if (prop == "C15") { al[21].w = 12; al[22].w = 6; al[0].w = 5; al[10].w = 2; al[11].w = 2; al[13].w = 0; al[17].w = 0; al[18].w = 0; }
     if (prop == "C08" || prop == "C01") for (size_t i = 13; i < al.size(); i++) al[i].w = (prop == "C08" && i != 16) ? 1 : 0;
@@ -206,6 +212,7 @@ struct TopoMachine : Machine {
       if (ks == "mem_local") o.set("fl", (int64_t)ops.below(9)).set("byobj", (int64_t)ops.below(2)).set("o", (int64_t)ops.below(1000)).set("mode", ops.chance(1, 2) ? 1 : (int64_t)ops.below(9)).setu("bits", ops.next());
       if (ks == "kind_register") o.set("mode", (int64_t)ops.below(7)).set("sm", (int64_t)ops.below(2)).setu("bits", ops.next()).set("eff", (int64_t)ops.below(8)).set("fl", (int64_t)ops.below(1000)).set("ni", (int64_t)ops.below(4)).setu("is", ops.next());
       if (ks == "kind_query") o.set("a", (int64_t)ops.below(100));
+      if (ks == "diff") o.setu("es", ops.next()).set("ne", ops.chance(1, 6) ? 0 : (int64_t)ops.below(5)).set("xml", (int64_t)ops.below(4)).set("poison", (int64_t)ops.below(3)).set("chain", (int64_t)ops.below(2)).set("pn", (int64_t)ops.below(50)).set("pk", (int64_t)ops.below(4));
       if (ks == "xml_restart") o.set("via", (int64_t)ops.below(2)).set("v2", (int64_t)ops.below(8)).set("pre", (int64_t)ops.below(3));
       if (ks == "restrict") {
         int fl = 0; bool bynode = ops.chance(1, 3);
@@ -219,7 +226,7 @@ struct TopoMachine : Machine {
       else if (ks == "allow") o.set("mode", (int64_t)ops.below(5)).set("cm", ops.chance(1, 2) ? 0 : (int64_t)ops.below(9)).set("nm", ops.chance(1, 2) ? 0 : (int64_t)ops.below(9)).setu("bits", ops.next()).set("give", (int64_t)ops.below(1000));
       else if (ks == "add_info") o.set("o", (int64_t)ops.below(1000)).set("name", (int64_t)ops.below(6)).set("v", (int64_t)ops.below(100000));
       else if (ks == "modify_infos" || ks == "topo_info") o.set("o", (int64_t)ops.below(1000)).set("name", (int64_t)ops.below(6)).set("v", (int64_t)ops.below(100000)).set("op", (int64_t)ops.below(5)).set("nul", (int64_t)ops.below(8));
-      else if (ks == "set_subtype") o.set("o", (int64_t)ops.below(1000)).set("v", (int64_t)ops.below(100000));
+      else if (ks == "set_subtype") o.set("o", (int64_t)ops.below(1000)).set("v", (int64_t)ops.below(100000)).set("io", (int64_t)ops.below(2));
       else if (ks == "set_userdata") o.set("o", (int64_t)ops.below(1000)).set("tok", (int64_t)ops.below(100000));
       p.ops.push_back(o);
     }
